@@ -276,6 +276,8 @@ func run(c *hlib.Ctx) {
 	}
 	runMcVerts(c)
 	runMsVerts(c)
+	runMsFilter(c)
+	runMcFilter(c)
 	runMcSearch(c)
 	runMsSearch(c)
 	if childKind == "" {
@@ -299,7 +301,11 @@ func runMcVerts(c *hlib.Ctx) {
 			case 0:
 				m = model3d.MarchingCubes(s, delta)
 			case 1:
-				m = model3d.MarchingCubesFilter(s, func(*model3d.Rect) bool { return true }, delta)
+				flt := newFilter3(c.Rng.Intn(3), tree3(s), xs, ys, zs, bs)
+				m = model3d.MarchingCubesFilter(s, flt.f3, delta)
+				if flt.unsound != "" {
+					return "harness-error:filter-unsound:" + flt.unsound
+				}
 			default:
 				m = model3d.MarchingCubesSearch(s, delta, 0)
 			}
@@ -365,7 +371,11 @@ func runMsVerts(c *hlib.Ctx) {
 			case 0:
 				m = model2d.MarchingSquares(s, delta)
 			case 1:
-				m = model2d.MarchingSquaresFilter(s, func(*model2d.Rect) bool { return true }, delta)
+				flt := newFilter2(c.Rng.Intn(3), tree2(s), xs, ys, bs)
+				m = model2d.MarchingSquaresFilter(s, flt.f2, delta)
+				if flt.unsound != "" {
+					return "harness-error:filter-unsound:" + flt.unsound
+				}
 			default:
 				m = model2d.MarchingSquaresSearch(s, delta, 0)
 			}
@@ -506,7 +516,11 @@ func runMcSearch(c *hlib.Ctx) {
 			} else if c.Rng.Intn(2) == 0 {
 				m = model3d.MarchingCubesSearch(s, delta, iters)
 			} else {
-				m = model3d.MarchingCubesSearchFilter(s, func(*model3d.Rect) bool { return true }, delta, iters)
+				flt := newFilter3(c.Rng.Intn(3), t, xs, ys, zs, labels3(s, xs, ys, zs))
+				m = model3d.MarchingCubesSearchFilter(s, flt.f3, delta, iters)
+				if flt.unsound != "" {
+					return "harness-error:filter-unsound:" + flt.unsound
+				}
 			}
 			var out []string
 			var pts [][]float64
@@ -604,7 +618,11 @@ func runMsSearch(c *hlib.Ctx) {
 			if c.Rng.Intn(2) == 0 {
 				m = model2d.MarchingSquaresSearch(s, delta, iters)
 			} else {
-				m = model2d.MarchingSquaresSearchFilter(s, func(*model2d.Rect) bool { return true }, delta, iters)
+				flt := newFilter2(c.Rng.Intn(3), t, xs, ys, labels2(s, xs, ys))
+				m = model2d.MarchingSquaresSearchFilter(s, flt.f2, delta, iters)
+				if flt.unsound != "" {
+					return "harness-error:filter-unsound:" + flt.unsound
+				}
 			}
 			var out []string
 			var pts [][]float64
